@@ -508,6 +508,7 @@ class Tracer:
         self.nsteps = 0
         self.n_restart_batches = 0
         self.submitted_domain_errors = []
+        self.attrs = []                # per step: [(attribute name, [snapshot indices])]
         self.eval_var_changes = []     # evaluate_all must not change the (decoded) variables of what it is given
 
     def sid(self, s):
@@ -601,10 +602,22 @@ class Tracer:
                     out.append((name, s))
         return out
 
+    def attribute_contents(self, alg):
+        """what each exposed attribute holds, in its own order (for the per-algorithm data-flow check)"""
+        out = []
+        for name in EXPOSED_ATTRS:
+            v = getattr(alg, name, None)
+            if v is None:
+                continue
+            items = [v] if hasattr(v, "variables") else list(v)
+            out.append((name, [self.snap(s) for s in items]))
+        return out
+
     def boundary(self, alg, oracle):
         exp = self.exposed_objects(alg)
         idx = [self.snap(s) for _, s in exp]
         self.steps.append((self.cur_batches, idx))
+        self.attrs.append(self.attribute_contents(alg))
         oracle(self.nsteps, exp)
         self.cur_batches = []
         self.pool_ids = set(id(s) for _, s in exp)
@@ -764,7 +777,7 @@ def run_config(cfg):
                                             "(results paired with the wrong solution)" % (d0, d1)})
         for (st, bn, sid, err) in tracer.submitted_domain_errors[:5]:
             out["c07_fail"].append({"step": st, "batch": bn, "sid": sid, "what": "submitted to evaluate_all: " + err})
-        out["trace"] = {"table": tracer.table, "init": tracer.init, "steps": tracer.steps}
+        out["trace"] = {"table": tracer.table, "init": tracer.init, "steps": tracer.steps, "attrs": tracer.attrs}
         out["n_batches"] = sum(len(b) for b, _ in tracer.steps)
         out["n_multi_batch_steps"] = sum(1 for b, _ in tracer.steps if len(b) > 1)
         out["n_exposed"] = sum(len(e) for _, e in tracer.steps)
@@ -899,14 +912,17 @@ def c01_case_lit(res):
     if calls is None:
         return None
     steps = []
-    for batches, exposed in tr["steps"]:
+    for (batches, exposed), attrs in zip(tr["steps"], tr["attrs"]):
         bl = []
         for before, prov, after in batches:
             bl.append("(%s, %s, %s)" % (C.list_lit([nat(i) for i in before]),
                                         C.list_lit(["None" if p is None else "(Some %s)" % nat(p) for p in prov]),
                                         C.list_lit([nat(i) for i in after])))
-        steps.append("(%s, %s)" % (C.list_lit(bl), C.list_lit([nat(i) for i in exposed])))
-    return "K1 %s %s\n %s\n %s\n %s\n %s" % (
+        al = ["(A_%s, %s)" % (name, C.list_lit([nat(i) for i in idx])) for name, idx in attrs]
+        assert sorted(set(i for _, idx in attrs for i in idx)) == sorted(set(exposed))
+        steps.append("(%s, %s)" % (C.list_lit(bl), C.list_lit(al)))
+    return "K1 A%s %s %s\n %s\n %s\n %s\n %s" % (
+        res["cfg"]["alg"],
         C.list_lit([ty_lit(t) for t in types]),
         C.list_lit([cdecl_lit(d) for d in res["cons_decl"]]),
         C.list_lit([call_lit(types, c) for c in calls]),
